@@ -118,7 +118,33 @@ Plan cal_gen(const std::string &check, const std::string &tier, uint64_t seed, l
 	bool need_full = cls != W8 || S.rect;
 	auto shape = [&]() { return need_full ? true : rng.chance(0.5); };
 	int P = S.P;
-	if (cls == W16 && P == 2) {
+	bool eight = cls == W8 || cls == W10;
+	int recipe = 0;	// 0 textbook, 1 through-reflect-line, 2 reflects on one port + a spanning tree of throughs
+	if (eight && !S.rect && !c12 && !c10) { double u = rng.uni(); if (P == 2 && u < 0.10) recipe = 1; else if (P >= 2 && u < 0.28) recipe = 2; }
+	if (recipe == 1) {
+	    // TRL: known through, the same unknown reflection on both ports, a matched line of unknown transmission
+	    bool neg = rng.chance(0.5);
+	    double ph = 0.1 * (2 * rng.uni() - 1), mag = 0.85 + 0.1 * rng.uni();
+	    Op mu = g.mk("mkunknown", {neg ? -3 : -2}, S.sid); mu.d = {(neg ? -1 : 1) * mag * cos(ph), mag * sin(ph)}; plan.ops.push_back(mu);
+	    long u = g.nparams++;
+	    double lmag = 0.85 + 0.12 * rng.uni(), lph = -(30 + 120 * rng.uni()) * M_PI / 180;
+	    double gmag = lmag * (0.95 + 0.1 * rng.uni()), gph = lph + (25 * (2 * rng.uni() - 1)) * M_PI / 180;
+	    long gl = mkscalar(gmag * cos(gph), gmag * sin(gph), S.sid);
+	    Op ml = g.mk("mkunknown", {gl}, S.sid); ml.d = {lmag * cos(lph), lmag * sin(lph)}; plan.ops.push_back(ml);
+	    long l = g.nparams++;
+	    S.todo.push_back(GStd{2, true, (int)rng.below(3), 1, 2, {0, 0, 0, 0}, 1.0});
+	    S.todo.push_back(GStd{1, true, (int)rng.below(2), 1, 2, {u, u, 0, 0}, 1.0});
+	    S.todo.push_back(GStd{3, true, (int)rng.below(2), 1, 2, {-1, l, l, -1}, 1.0});
+	    if (rng.chance(0.3)) S.todo.push_back(GStd{0, true, (int)rng.below(2), (int)rng.range(1, 2), 0, {reflect_ref((int)rng.below(3)), 0, 0, 0}, 1.0});	// a redundant known reflect: general solver instead of the closed form
+	    S.has_unknown = false;
+	} else if (recipe == 2) {
+	    int root = (int)rng.range(1, P);
+	    for (int which = 0; which < 3; ++which) S.todo.push_back(GStd{0, shape(), (int)rng.below(2), root, 0, {reflect_ref(which), 0, 0, 0}, 1.0});
+	    std::vector<int> order; for (int p = 1; p <= P; ++p) if (p != root) order.push_back(p);
+	    for (size_t k = order.size(); k > 1; --k) std::swap(order[k - 1], order[(size_t)rng.below((long)k)]);
+	    std::vector<int> tree = {root};
+	    for (int p : order) { int q = tree[(size_t)rng.below((long)tree.size())]; GStd st{2, shape(), (int)rng.below(3), q, p, {0, 0, 0, 0}, 1.0}; if (rng.chance(0.4)) std::swap(st.p1, st.p2); S.todo.push_back(st); tree.push_back(p); }
+	} else if (cls == W16 && P == 2) {
 	    int combos[8][2] = {{2, 2}, {0, 0}, {1, 1}, {0, 1}, {1, 0}, {0, 2}, {2, 1}, {1, 2}};
 	    for (auto &cb : combos) {
 		GStd st{1, true, (int)rng.below(2), 1, 2, {cb[0] == 0 ? -3 : cb[0] == 1 ? -2 : -1, cb[1] == 0 ? -3 : cb[1] == 1 ? -2 : -1, 0, 0}, 1.0};
@@ -154,7 +180,7 @@ Plan cal_gen(const std::string &check, const std::string &tier, uint64_t seed, l
 		for (int p = 1; p <= P; ++p) for (int which = 0; which < 3; ++which) S.todo.push_back(GStd{0, shape(), (int)rng.below(2), p, 0, {reflect_ref(which), 0, 0, 0}, 1.0});
 	    }
 	}
-	for (int i = 1; i <= P; ++i) for (int j = i + 1; j <= P; ++j) {
+	for (int i = 1; i <= P && recipe == 0; ++i) for (int j = i + 1; j <= P; ++j) {
 	    GStd st{2, shape(), (int)rng.below(3), i, j, {0, 0, 0, 0}, 1.0};
 	    if (rng.chance(0.3)) std::swap(st.p1, st.p2);
 	    S.todo.push_back(st);
